@@ -111,6 +111,8 @@ Record shared := {
   rawd : list N;            (* deltas returned by raw AtomicCounter::flush calls, newest first *)
   lost : list N;            (* deltas State::flush dropped with `continue`, newest first *)
   marks : list N;           (* value of [added] at each 1008 load, newest first *)
+  flog : list (N * N);      (* per completed counter flush (1010 step), newest first: (delta, amount by which [added]
+                               grew between the two most recent 1008 loads) *)
   ghist : list gwrite }.    (* gauge writes in execution order, newest first *)
 
 Definition enter (td : list uop) (rs : list res) : local :=
@@ -126,10 +128,12 @@ Definition enter (td : list uop) (rs : list res) : local :=
 
 Definition set_cnt (s : shared) (c : cell) : shared :=
   {| cnt := c; gau := gau s; idle := idle s; added := added s; sent := sent s; rawd := rawd s;
-     lost := lost s; marks := marks s; ghist := ghist s |}.
+     lost := lost s; marks := marks s; flog := flog s; ghist := ghist s |}.
 Definition set_gau (s : shared) (g : gcell) : shared :=
   {| cnt := cnt s; gau := g; idle := idle s; added := added s; sent := sent s; rawd := rawd s;
-     lost := lost s; marks := marks s; ghist := ghist s |}.
+     lost := lost s; marks := marks s; flog := flog s; ghist := ghist s |}.
+(* growth of [added] between the two most recent 1008 loads *)
+Definition window (m : list N) : N := match m with [] => 0 | a :: r => a - hd 0 r end.
 Definition goto (l : local) (p : pc) : local := {| pcl := p; todo := todo l; results := results l |}.
 
 Section Machine.
@@ -141,7 +145,7 @@ Definition step (s : shared) (l : local) : option (shared * local) :=
   | Done => None
   | PA1 v => Some (set_cnt s (a1 (cnt s)), goto l (PA2 v))
   | PA2 v => Some ({| cnt := a2 v (cnt s); gau := gau s; idle := idle s; added := added s + v; sent := sent s;
-                      rawd := rawd s; lost := lost s; marks := marks s; ghist := ghist s |}, goto l PA3)
+                      rawd := rawd s; lost := lost s; marks := marks s; flog := flog s; ghist := ghist s |}, goto l PA3)
   | PA3 => Some (set_cnt s (a3 (cnt s)), enter (todo l) (RU :: results l))
   | PB1 v => let '(was, c) := b1 (cnt s) in
              Some (set_cnt s c, goto l (if was then PB3 false v else PB2 v))
@@ -149,10 +153,10 @@ Definition step (s : shared) (l : local) : option (shared * local) :=
   | PB3 first v => Some (set_cnt s (b3 fx first v (cnt s)), goto l PB4)
   | PB4 => Some (set_cnt s (a3 (cnt s)), enter (todo l) (RU :: results l))
   | PG1 w => Some ({| cnt := cnt s; gau := g1 w (gau s); idle := idle s; added := added s; sent := sent s;
-                      rawd := rawd s; lost := lost s; marks := marks s; ghist := w :: ghist s |}, goto l PG2)
+                      rawd := rawd s; lost := lost s; marks := marks s; flog := flog s; ghist := w :: ghist s |}, goto l PG2)
   | PG2 => Some (set_gau s (g2 (gau s)), enter (todo l) (RU :: results l))
   | PF1 st => Some ({| cnt := cnt s; gau := gau s; idle := idle s; added := added s; sent := sent s;
-                       rawd := rawd s; lost := lost s; marks := added s :: marks s; ghist := ghist s |},
+                       rawd := rawd s; lost := lost s; marks := added s :: marks s; flog := flog s; ghist := ghist s |},
                     goto l (PF2 st (cur (cnt s))))
   | PF2 st sn => let '(ol, c) := f2 sn (cnt s) in Some (set_cnt s c, goto l (PF3 st (sub64 sn ol)))
   | PF3 st d =>
@@ -163,11 +167,12 @@ Definition step (s : shared) (l : local) : option (shared * local) :=
                  sent := match o with Some x => x :: sent s | None => sent s end;
                  rawd := rawd s;
                  lost := match o with Some _ => lost s | None => d :: lost s end;
-                 marks := marks s; ghist := ghist s |},
+                 marks := marks s; flog := (d, window (marks s)) :: flog s; ghist := ghist s |},
               goto l (PH1 (Some (o, match o with Some _ => u | None => 0 end))))
       else
         Some ({| cnt := c; gau := gau s; idle := idle s; added := added s; sent := sent s;
-                 rawd := d :: rawd s; lost := lost s; marks := marks s; ghist := ghist s |},
+                 rawd := d :: rawd s; lost := lost s; marks := marks s;
+                 flog := (d, window (marks s)) :: flog s; ghist := ghist s |},
               enter (todo l) (RCnt d u :: results l))
   | PH1 carry => Some (s, goto l (PH2 carry (gv (gau s)) (ghist s)))
   | PH2 carry z h =>
@@ -192,7 +197,7 @@ Definition site (l : local) : N :=
 
 Definition init_shared : shared :=
   {| cnt := cell0; gau := gcell0; idle := false; added := 0; sent := []; rawd := []; lost := [];
-     marks := []; ghist := [] |}.
+     marks := []; flog := []; ghist := [] |}.
 Definition init_local (p : list uop) : local := {| pcl := Start; todo := p; results := [] |}.
 Definition init_config (ps : list (list uop)) : config := (init_shared, map init_local ps).
 
